@@ -223,24 +223,36 @@ def frame1(ctx: Ctx, chk) -> None:
                         writer_calls.append((f, n, fact[0]))
     # --- resynchronisation after an over-long line: in the LimitOverrunError handler the scanned chunk may be dropped
     # with `await reader.readexactly(err.consumed)` (result unused) - judged by RESYNC-2 below, not a second consumer
+    # private helpers of the transport that only read() (transitively) calls are part of read(): judged written out
+    from ..prov import Canon
+
+    read_i = ctx.inl(read)
+    inl_names = set(getattr(read_i, "inlined", []))
+    own_ids = {id(x) for x in ast.walk(read_i.node)}
+    pmap: dict = {}
+    for par_ in ast.walk(read_i.node):
+        for ch_ in ast.iter_child_nodes(par_):
+            pmap[ch_] = par_
+    reader_calls = [((read if (f_.qualname in inl_names and id(n_) in own_ids) else f_), n_, nm_) for f_, n_, nm_ in reader_calls]
+    cn_r = Canon(ctx.I, read_i, "")
     discards = []
     for f_, n_, nm_ in list(reader_calls):
         if f_ is not read or not nm_.endswith(".readexactly"):
             continue
-        par = prog.parents.get(n_)
-        stmt = prog.parents.get(par) if isinstance(par, ast.Await) else None
+        par = pmap.get(n_)
+        stmt = pmap.get(par) if isinstance(par, ast.Await) else None
         cur = n_
         handler = None
-        while cur in prog.parents and cur is not read.node:
-            cur = prog.parents[cur]
+        while cur in pmap and cur is not read_i.node:
+            cur = pmap[cur]
             if isinstance(cur, ast.ExceptHandler):
                 handler = cur
                 break
-        if isinstance(stmt, ast.Expr) and handler is not None and handler.type is not None and norm(handler.type).endswith("LimitOverrunError") and len(n_.args) == 1 and norm(n_.args[0]) == f"{handler.name}.consumed":
+        if isinstance(stmt, ast.Expr) and handler is not None and handler.type is not None and norm(handler.type).endswith("LimitOverrunError") and len(n_.args) == 1 and cn_r.canon(n_.args[0]) in (f"{handler.name}.consumed",):
             discards.append((n_, handler))
             reader_calls.remove((f_, n_, nm_))
     if discards:
-        resync2(ctx, chk, read, discards)
+        resync2(ctx, chk, read_i, discards)
     # --- single consumer, readuntil(TERMINATOR)
     chk.instance(rule)
     rc = [(f, n, nm) for f, n, nm in reader_calls]
